@@ -13,7 +13,14 @@
 
   Outside the subset (→ `DErr.unsupported`, never produced by the C07 generators):
   PLATFORM events (InputError: no platform command is ever registered), portamento, pitch envelope, macro track (PAN_ENVELOPE ≠ 0),
-  FM3 special mode, PCM instruments / PCM mixing (`pcm_mode` is 0: `MDSDRV_Platform(0)`).
+  FM3 special mode, software PCM mixing (`pcm_mode` is 0: `MDSDRV_Platform(0)`, the default platform).
+
+  PCM instruments in `pcm_mode` 0 (property C08): `MDSDRV_Data::wave_rom` / `wave_map` are the
+  `bank` / `waveMap` fields of `Data` (a `Wave.Bank`, Model/Wave.lean); `play_song` writes the used
+  part of the rom as one type-0 data block followed by the DAC stream setup; `key_on_pcm` /
+  `key_off_pcm` issue `ym2612_w(0, 0x2b, …)` immediately followed by `dac_start` / `dac_stop` —
+  modelled as the `dac` field of that write (`Wr.toOps` puts the stream command right after it).
+  `sample.position + sample.start` is `uint32_t` arithmetic (`Wave.u32`).
 
   Narrowings of the C++ made explicit here:
     note_pitch, pitch, last_pitch : uint16_t  (`% 65536`)
@@ -32,6 +39,7 @@
 -/
 import Ctrmml.Model.PlayerCh
 import Ctrmml.Model.Vgm
+import Ctrmml.Model.Wave
 namespace Ctrmml.MdDriver
 open Ctrmml Ctrmml.Player Ctrmml.PlayerCh Tables
 
@@ -55,6 +63,10 @@ structure Data where
   ins : List (Nat × Ins)
   /-- `data_bank.at(0)`: the default PSG envelope `read_song` registers first -/
   env0 : List Nat := md_default_psg_env
+  /-- `wave_rom` after `read_song` (every `@n pcm` tag added in tag order) -/
+  bank : Wave.Bank := Wave.Bank.new mds_dataWaveRom 0
+  /-- `wave_map`: PCM instrument id → index into `wave_rom.get_sample_headers()` -/
+  waveMap : List (Nat × Nat) := []
   deriving Repr
 
 /-- `ins_type[id]` etc.: `std::map::operator[]` default-constructs a missing entry -/
@@ -69,35 +81,51 @@ def u8 (x : Int) : Nat := (x % 256).toNat
 def wrap8 (x : Int) : Int := ((x + 128) % 256) - 128
 
 /-! ### Driver::ym2612_w / sn76489_w (driver.cpp) -/
-/-- one `Driver::write(command, port, reg, data)`: all that channels can emit -/
+/-- the DAC stream command `key_on_pcm` / `key_off_pcm` issue right after their register write -/
+inductive Dac
+  | none
+  | start (pos len rate : Nat)   -- `vgm->dac_start(0x00, pos, len, rate)`
+  | stop                         -- `vgm->dac_stop(0x00)`
+  deriving DecidableEq, Repr
+
+/-- one `Driver::write(command, port, reg, data)` (+ the DAC stream command that directly
+follows it): all that channels can emit -/
 structure Wr where
   cmd : Nat
   port : Nat
   reg : Nat
   data : Nat
+  dac : Dac := .none
   deriving DecidableEq, Repr
 
 def Wr.toOp (w : Wr) : Vgm.Op := .write w.cmd w.port w.reg w.data
+
+/-- the operations on the `VGM_Writer`, in order -/
+def Wr.toOps (w : Wr) : List Vgm.Op :=
+  w.toOp :: (match w.dac with
+    | .none => []
+    | .start p l r => [Vgm.Op.dacStart 0 p l r]
+    | .stop => [Vgm.Op.dacStop 0])
 
 abbrev Op := Wr
 
 /-- `Driver::ym2612_w(port, reg, ch, op, data)` for the register classes the subset uses
 (the `reg ≥ 0xa8` operator-frequency remapping belongs to FM3 mode) -/
 def ymW (port reg ch op data : Nat) : List Op :=
-  if reg = 0x28 then [Wr.mk 0x52 0 reg ((data * 16 + (ch ||| (port * 4))) % 65536)]
-  else if 0x30 ≤ reg ∧ reg < 0xa0 then [Wr.mk 0x52 port ((reg + op * 4 + ch) % 256) data]
+  if reg = 0x28 then [Wr.mk 0x52 0 reg ((data * 16 + (ch ||| (port * 4))) % 65536) .none]
+  else if 0x30 ≤ reg ∧ reg < 0xa0 then [Wr.mk 0x52 port ((reg + op * 4 + ch) % 256) data .none]
   else if 0xa0 ≤ reg ∧ reg < 0xb0 then
-    [Wr.mk 0x52 port ((reg + ch) % 256 + 4) (data / 256), Wr.mk 0x52 port ((reg + ch) % 256) (data % 256)]
-  else if reg ≥ 0xb0 then [Wr.mk 0x52 port ((reg + ch) % 256) data]
-  else [Wr.mk 0x52 0 reg data]
+    [Wr.mk 0x52 port ((reg + ch) % 256 + 4) (data / 256) .none, Wr.mk 0x52 port ((reg + ch) % 256) (data % 256) .none]
+  else if reg ≥ 0xb0 then [Wr.mk 0x52 port ((reg + ch) % 256) data .none]
+  else [Wr.mk 0x52 0 reg data .none]
 
 /-- `Driver::sn76489_w(reg, ch, data)` -/
 def snW (reg ch data : Nat) : List Op :=
   if reg = 0 then
     let d := data % 1024
     let cmd1 := ((d % 16) ||| (ch * 32) ||| 0x80) % 256
-    [Wr.mk 0x50 0 0 cmd1] ++ (if ch < 3 then [Wr.mk 0x50 0 0 ((d / 16) % 256)] else [])
-  else if reg = 1 then [Wr.mk 0x50 0 0 (((data % 16) ||| (ch * 32) ||| 0x90) % 256)]
+    [Wr.mk 0x50 0 0 cmd1 .none] ++ (if ch < 3 then [Wr.mk 0x50 0 0 ((d / 16) % 256) .none] else [])
+  else if reg = 1 then [Wr.mk 0x50 0 0 (((data % 16) ||| (ch * 32) ||| 0x90) % 256) .none]
   else []
 
 /-! ### pitch and volume tables -/
@@ -157,6 +185,8 @@ structure Ch where
   kind : Kind
   root : List Event
   ps : PS
+  /-- `MD_Channel::channel_id` (= the track id) -/
+  chanId : Nat := 0
   /-- `Player::event.type` -/
   evType : Nat := ev_NOP
   slur : Bool := false
@@ -178,6 +208,8 @@ structure G where
   tempoDelta : Nat
   loopTrigger : Bool
   err : Option DErr := none
+  /-- `MD_Driver::last_pcm_channel` (`none` = -1) -/
+  lastPcm : Option Nat := none
   deriving Repr
 
 def G.fail (g : G) (e : DErr) : G := if g.err.isSome then g else { g with err := some e }
@@ -204,14 +236,14 @@ def mkCh (d : Data) (id : Nat) (root : List Event) : Ch × List Op :=
   if id < 6 then
     let bank := id / 3
     let cid := id % 3
-    ({ kind := .fm bank cid, root := root, ps := ps },
+    ({ kind := .fm bank cid, root := root, ps := ps, chanId := id },
      ymW bank 0x40 cid 0 0x7f ++ ymW bank 0x40 cid 1 0x7f ++ ymW bank 0x40 cid 2 0x7f ++ ymW bank 0x40 cid 3 0x7f
        ++ ymW bank 0x28 cid 0 0 ++ ymW bank 0xb4 cid 0 0xc0)
   else if id < 9 then
-    ({ kind := .psg ((id - 6) % 4), root := root, ps := ps, envData := d.env0 }, snW 1 ((id - 6) % 4) 15)
+    ({ kind := .psg ((id - 6) % 4), root := root, ps := ps, chanId := id, envData := d.env0 }, snW 1 ((id - 6) % 4) 15)
   else if id < 10 then
-    ({ kind := .noise, root := root, ps := ps, envData := d.env0 }, snW 1 3 15)
-  else ({ kind := .dummy, root := root, ps := ps }, [])
+    ({ kind := .noise, root := root, ps := ps, chanId := id, envData := d.env0 }, snW 1 3 15)
+  else ({ kind := .dummy, root := root, ps := ps, chanId := id }, [])
 
 /-- `v_set_vol` -/
 def vSetVol (c : Ch) : List Op :=
@@ -243,12 +275,25 @@ def vSetIns (d : Data) (c : Ch) : Ch × List Op :=
     if i.type ≠ mdsdrv_INS_PSG then (c, []) else ({ c with envData := i.data, envPos := 0, envDelay := 15 }, [])
   | .dummy => (c, [])
 
-/-- `MD_Channel::set_ins` (instrument types other than PCM) -/
+/-- `MD_Channel::set_ins` (`pcm_mode` 0: a PCM instrument takes the same path as any other —
+`pcm_channel_enable` is never set — and `v_set_ins` ignores it) -/
 def setIns (d : Data) (g : G) (c : Ch) : G × Ch × List Op :=
-  if (d.get (u16 (c.var ev_INS))).type = mdsdrv_INS_PCM then (g.fail .unsupported, c, []) else
   (g, ((setVol (vSetIns d c).1).1).clearFlag ev_INS, (vSetIns d c).2 ++ (setVol (vSetIns d c).1).2)
 
-/-- `MD_Channel::key_off` (not FM3; `key_off_pcm` does nothing without PCM) → `v_key_off` -/
+/-- `MD_Channel::key_off_pcm` (`pcm_mode` 0): the channel that started the DAC stream stops it -/
+def keyOffPcm (g : G) (c : Ch) : G × List Op :=
+  if g.lastPcm = some c.chanId then ({ g with lastPcm := none }, [Wr.mk 0x52 0 0x2b 0 .stop]) else (g, [])
+
+/-- `MD_Channel::key_on_pcm` (`pcm_mode` 0): DAC enable and `dac_start` over the sample's window -/
+def keyOnPcm (d : Data) (g : G) (c : Ch) : G × List Op :=
+  if (d.get (u16 (c.var ev_INS))).type = mdsdrv_INS_PCM then
+    match d.bank.samples[(d.waveMap.lookup (u16 (c.var ev_INS))).getD 0]? with
+    | none => (g.fail .oob, [])
+    | some s => ({ g with lastPcm := some c.chanId },
+                 [Wr.mk 0x52 0 0x2b 0x80 (.start (Wave.u32 (s.position + s.start)) s.size s.rate)])
+  else (g, [])
+
+/-- the `v_key_off` part of `MD_Channel::key_off` (not FM3); `key_off_pcm` runs before it -/
 def keyOff (c : Ch) : Ch × List Op :=
   match c.kind with
   | .fm bank id => (c, ymW bank 0x28 id 0 0)
@@ -274,7 +319,8 @@ def updateTempo (g : G) (c : Ch) : G × Ch :=
 def noteStart (g : G) (c : Ch) (e : Event) : G × Ch × List Op :=
   let c1 : Ch := { c with notePitch := u16 ((e.param + c.var ev_TRANSPOSE) * 256 + c.var ev_DETUNE), keyOn := true }
   if !c1.slur then
-    ((if (keyOff c1).1.var ev_PAN_ENVELOPE ≠ 0 then g.fail .unsupported else g), (keyOff c1).1, (keyOff c1).2)
+    ((if (keyOff c1).1.var ev_PAN_ENVELOPE ≠ 0 then (keyOffPcm g c1).1.fail .unsupported else (keyOffPcm g c1).1), (keyOff c1).1,
+     (keyOffPcm g c1).2 ++ (keyOff c1).2)
   else (g, c1, [])
 
 /-- `case Event::TIE:` (shared with `NOTE`): pending instrument or volume change -/
@@ -291,8 +337,8 @@ def writeEvent (d : Data) (g : G) (c : Ch) (e : Event) : G × Ch × List Op :=
     ((insOrVol d (noteStart g c e).1 (noteStart g c e).2.1).1, (insOrVol d (noteStart g c e).1 (noteStart g c e).2.1).2.1,
      (noteStart g c e).2.2 ++ (insOrVol d (noteStart g c e).1 (noteStart g c e).2.1).2.2)
   else if t = ev_TIE then insOrVol d g c
-  else if t = ev_END then ({ g with loopTrigger := true }, (keyOff c).1, (keyOff c).2)
-  else if t = ev_REST then (g, (keyOff c).1, (keyOff c).2)
+  else if t = ev_END then ({ (keyOffPcm g c).1 with loopTrigger := true }, (keyOff c).1, (keyOffPcm g c).2 ++ (keyOff c).2)
+  else if t = ev_REST then ((keyOffPcm g c).1, (keyOff c).1, (keyOffPcm g c).2 ++ (keyOff c).2)
   else if t = ev_SLUR then (g, { c with slur := true }, [])
   else if t = ev_TEMPO ∨ t = ev_TEMPO_BPM then ((updateTempo g c).1, (updateTempo g c).2, [])
   else if t = ev_PLATFORM then (g.fail .unsupported, c, [])
@@ -347,35 +393,47 @@ def chTicks (d : Data) (song : Song) : Nat → G → Ch → G × Ch × List Op
     let (g, c, o2) := chTicks d song n g c
     (g, c, o1 ++ o2)
 
-/-- `MD_PSG::v_update_envelope` -/
-def psgEnvelope (g : G) (c : Ch) (id : Nat) : G × Ch × List Op :=
-  if !c.enabled then (g, c, []) else
-  let c := if c.keyOn ∧ !c.slur then { c with envPos := 0, envDelay := 0x1f, envKeyoff := false } else c
+/-- `MD_PSG::v_update_envelope`, first statement: a key-on that is not slurred restarts the envelope -/
+def psgEnvRestart (c : Ch) : Ch :=
+  if c.keyOn ∧ !c.slur then { c with envPos := 0, envDelay := 0x1f, envKeyoff := false } else c
+
+/-- `MD_PSG::v_update_envelope`: sustain / loop command at the current envelope position;
+`none` = `vector::at` throws -/
+def psgEnvCmd (c : Ch) (d0 : Nat) : Option Ch :=
+  if d0 = 0x01 ∧ c.envKeyoff then some { c with envPos := (c.envPos + 1) % 256, envKeyoff := false }
+  else if d0 = 0x02 ∧ !c.envKeyoff then
+    match c.envData[c.envPos + 1]? with
+    | none => none
+    | some p => some { c with envPos := p }
+  else some c
+
+/-- `MD_PSG::v_update_envelope`: the byte at the (new) position — a level with its delay, or the
+end of the envelope -/
+def psgEnvValue (g : G) (c : Ch) (id : Nat) : G × Ch × List Op :=
+  match c.envData[c.envPos]? with
+  | none => (g.fail .oob, c, [])
+  | some d1 =>
+    if d1 > 0x0f then
+      (g, { c with envDelay := d1, envPos := (c.envPos + 1) % 256 }, vSetVol { c with envDelay := d1 })
+    else if c.evType = ev_REST ∧ c.envKeyoff then
+      (g, { c with envKeyoff := false, envPos := 0xff }, snW 1 id 15)
+    else (g, c, [])
+
+/-- `MD_PSG::v_update_envelope`, the envelope stepper -/
+def psgEnvBody (g : G) (c : Ch) (id : Nat) : G × Ch × List Op :=
   if c.envDelay < 0x20 ∨ c.envKeyoff then
     if c.envPos = 0xff then (g, c, []) else
     match c.envData[c.envPos]? with
     | none => (g.fail .oob, c, [])
     | some d0 =>
-      let step1 : Option Ch :=
-        if d0 = 0x01 ∧ c.envKeyoff then some { c with envPos := (c.envPos + 1) % 256, envKeyoff := false }
-        else if d0 = 0x02 ∧ !c.envKeyoff then
-          match c.envData[c.envPos + 1]? with
-          | none => none
-          | some p => some { c with envPos := p }
-        else some c
-      match step1 with
+      match psgEnvCmd c d0 with
       | none => (g.fail .oob, c, [])
-      | some c =>
-        match c.envData[c.envPos]? with
-        | none => (g.fail .oob, c, [])
-        | some d1 =>
-          if d1 > 0x0f then
-            let c := { c with envDelay := d1 }
-            (g, { c with envPos := (c.envPos + 1) % 256 }, vSetVol c)
-          else if c.evType = ev_REST ∧ c.envKeyoff then
-            (g, { c with envKeyoff := false, envPos := 0xff }, snW 1 id 15)
-          else (g, c, [])
+      | some c => psgEnvValue g c id
   else (g, { c with envDelay := c.envDelay - 0x10 }, [])
+
+/-- `MD_PSG::v_update_envelope` -/
+def psgEnvelope (g : G) (c : Ch) (id : Nat) : G × Ch × List Op :=
+  if !c.enabled then (g, c, []) else psgEnvBody g (psgEnvRestart c) id
 
 /-- `v_set_pitch` -/
 def vSetPitch (c : Ch) : List Op :=
@@ -407,19 +465,24 @@ def chPitch (c : Ch) : Ch × List Op :=
 def chKeyOn (c : Ch) : Ch × List Op :=
   (if c.keyOn then { c with slur := false, keyOn := false } else c, if c.keyOn ∧ !c.slur then vKeyOn c else [])
 
+/-- the `key_on_pcm()` call of `MD_Channel::key_on`, made under the same condition as `v_key_on` -/
+def chKeyOnPcm (d : Data) (g : G) (c : Ch) : G × List Op :=
+  if c.keyOn ∧ !c.slur then keyOnPcm d g c else (g, [])
+
 /-- the part of `MD_Channel::update` after the tick loop -/
-def chAfter (g : G) (c : Ch) : G × Ch × List Op :=
+def chAfter (d : Data) (g : G) (c : Ch) : G × Ch × List Op :=
   if g.err.isSome then (g, c, []) else
   let r1 := chEnv g c
   let g2 := if r1.2.1.var ev_PORTAMENTO ≠ 0 ∨ r1.2.1.var ev_PITCH_ENVELOPE ≠ 0 then r1.1.fail .unsupported else r1.1
   let r2 := chPitch r1.2.1
+  let rp := chKeyOnPcm d g2 r2.1
   let r3 := chKeyOn r2.1
-  (g2, r3.1, r1.2.2 ++ r2.2 ++ r3.2)
+  (rp.1, r3.1, r1.2.2 ++ r2.2 ++ rp.2 ++ r3.2)
 
 /-- `MD_Channel::update(seq_ticks)` -/
 def chUpdate (d : Data) (song : Song) (n : Nat) (g : G) (c : Ch) : G × Ch × List Op :=
   let r1 := chTicks d song n g c
-  let r2 := chAfter r1.1 r1.2.1
+  let r2 := chAfter d r1.1 r1.2.1
   (r2.1, r2.2.1, r1.2.2 ++ r2.2.2)
 
 /-! ### the driver -/
@@ -498,8 +561,8 @@ def playStep (d : Data) (song : Song) (s : Drv) : Drv × List Vgm.Op × Int :=
   let r1 := stepSeq d song s
   let r3 := stepLoop (stepPcm r1.1)
   match advance r3.1.seqCounter r3.1.pcmCounter with
-  | none => ({ r3.1 with g := r3.1.g.fail .nonInteger }, r1.2.map Wr.toOp ++ r3.2, 0)
-  | some (sc, pc, dl) => ({ r3.1 with seqCounter := sc, pcmCounter := pc }, r1.2.map Wr.toOp ++ r3.2, dl)
+  | none => ({ r3.1 with g := r3.1.g.fail .nonInteger }, r1.2.flatMap Wr.toOps ++ r3.2, 0)
+  | some (sc, pc, dl) => ({ r3.1 with seqCounter := sc, pcmCounter := pc }, r1.2.flatMap Wr.toOps ++ r3.2, dl)
 
 /-- `MD_Driver::play_song` (after `data.read_song`): data block, DAC stream setup, channels in
 track-map order -/
@@ -510,9 +573,9 @@ def playSong (d : Data) (song : Song) : Drv × List Vgm.Op :=
       (acc.1 ++ [c], acc.2 ++ o)
     else acc) ([], [])
   ({ chans := mk.1, g := { tempoDelta := md_initial_tempo_delta, loopTrigger := false } },
-   [Vgm.Op.datablock 0 [] mds_dataWaveRom 0 0,
+   [Vgm.Op.datablock 0 (d.bank.rom.take (d.bank.rom.length - d.bank.freeBytes)) d.bank.rom.length 0 0,
     Vgm.Op.dacSetup (tab md_dac_setup_args 0) (tab md_dac_setup_args 1) (tab md_dac_setup_args 2)
-      (tab md_dac_setup_args 3) (tab md_dac_setup_args 4)] ++ mk.2.map Wr.toOp)
+      (tab md_dac_setup_args 3) (tab md_dac_setup_args 4)] ++ mk.2.flatMap Wr.toOps)
 
 def maxTime : Int := (vgm_export_max_seconds * vgm_export_rate : Nat)
 
@@ -543,13 +606,50 @@ def exportOps (d : Data) (song : Song) (tags : Vgm.Tags) : Except DErr (List Vgm
   | some e => .error e
   | none => .ok (ctorPokes ++ o0 ++ o1 ++ [Vgm.Op.stop, Vgm.Op.writeTag tags])
 
-/-- the exported file -/
+/-- the exported file.  `std::range_error` (a tag that is not valid UTF-8, thrown by the GD3
+conversion inside `write_tag`) is caught in `vgm_export` and rethrown as `InputError`. -/
 def exportVgm (d : Data) (song : Song) (tags : Vgm.Tags) : Except DErr Bytes :=
   match exportOps d song tags with
   | .error e => .error e
   | .ok ops =>
     match Vgm.run vgm_export_version vgm_export_header_size ops with
+    | .error .rangeError => .error .input
     | .error e => .error (.vgm e)
     | .ok b => .ok b
+
+/-! ### tags (`get_tags` of song.cpp, defaults of `VGM_Writer::write_tag`) -/
+
+/-- the song's tag map as `get_tags` reads it: key ↦ values -/
+abbrev TagMap := List (String × List Bytes)
+
+/-- `safe_get_tag`: the first value of the tag, or the empty string -/
+def safeGetTag (m : TagMap) (k : String) : Bytes :=
+  match m.lookup k with
+  | some (v :: _) => v
+  | _ => []
+
+/-- `get_tags` -/
+def getTags (m : TagMap) : Vgm.Tags :=
+  let author := if (safeGetTag m "#composer").isEmpty then safeGetTag m "#author" else safeGetTag m "#composer"
+  let creator0 := if (safeGetTag m "#programmer").isEmpty then safeGetTag m "#programer" else safeGetTag m "#programmer"
+  { title := safeGetTag m "#title", titleJ := safeGetTag m "#titlej", game := safeGetTag m "#game", gameJ := safeGetTag m "#gamej",
+    system := safeGetTag m "#system", systemJ := safeGetTag m "#systemj", author := author, authorJ := safeGetTag m "#composerj",
+    date := safeGetTag m "#vgmdate", creator := if creator0.isEmpty then author else creator0, notes := safeGetTag m "#comment" }
+
+/-- the two strings `write_tag` takes from outside the song: wall clock and build stamp -/
+structure Stamps where
+  clock : Bytes
+  build : Bytes
+  deriving Repr
+
+/-- the eleven strings `write_tag` emits for a song: an empty date is replaced by the clock, an
+empty notes string by the build stamp (`std::string::size() == 0`) -/
+def finalTags (m : TagMap) (st : Stamps) : Vgm.Tags :=
+  let t := getTags m
+  { t with date := if t.date.isEmpty then st.clock else t.date, notes := if t.notes.isEmpty then st.build else t.notes }
+
+/-- `Platform::get_export_data(song, 0)` for a song whose instrument data is `d` -/
+def exportSong (d : Data) (song : Song) (m : TagMap) (st : Stamps) : Except DErr Bytes :=
+  exportVgm d song (finalTags m st)
 
 end Ctrmml.MdDriver
